@@ -69,6 +69,14 @@ def run_history(ctx, res, rng, hid):
                 if o is None:
                     continue
                 changed = n["body"] != o["body"] or n["kind"] != o["kind"] or n["priority"] != o["priority"]
+                # the priority as WRITTEN (todo state also of done / cancelled todos), read from the two texts, not from a compile
+                idre = re.compile(r"^[-ox~<>] (?:P\d )?(?:\d{6} )?" + re.escape(n["zid"]) + r"( |$)")
+                old_line = next((l for l in before_files.get(rel, "").split("\n") if idre.match(l)), None)
+                new_line = text.split("\n")[n["line"] - 1]
+                if old_line is not None and old_line[0] in "ox~<>" and new_line[0] in "ox~<>":
+                    wp = lambda l: int(l[3]) if re.match(r"^[ox~<>] P\d ", l) else 3
+                    if wp(old_line) != wp(new_line):
+                        changed = True
                 if changed and n["mdate"] != list(today):
                     expected[(rel, n["zid"])] = n["line"]
         rc = w.run("db", "reindex")
@@ -148,7 +156,7 @@ def classify(f: C.Failure, entry: dict) -> bool:
 RULE = (
     "edit histories over several calendar days on indexed directories: 3-7 rounds of 1-3 edits (body, bullet, kind, priority, new note, header line, "
     "section title, comment, whitespace) + 0-3 days + `db reindex`; per round an independent oracle computes the stamp set from the previous index "
-    "rows and the new text and checks iff-stamping in file (date inserted / replaced in front of the ZID) and index, byte identity of every other "
+    "rows and the new text (priority as written, also for done todos) and checks iff-stamping in file (date inserted / replaced in front of the ZID) and index, byte identity of every other "
     "line, file/index agreement and quiescence; stamped lines also vs NoteText.addOrUpdateModifyDate; non-trivial = round with at least one stamp"
 )
 ASSUME = ["edits never touch an existing stamp (open in the statement)", "file system atomic"]
